@@ -65,6 +65,14 @@ func main() {
 	for _, turn := range turns {
 		scen = append(scen, netsim.Scenario{Cfg: netsim.Config{Name: fmt.Sprintf("solo-turn%d-%s-round-shapes", turn, solo), Powers: []int64{1, 1, 1, 1}, SoloTurn: turn, Driver: solo, TargetHeight: 1, MaxRound: 8, MaxSteps: 1500}, Bound: 0})
 	}
+	// extended round shapes (re-proposals with a POL round, stale polka after the own prevote)
+	solox := "solo3x"
+	if r.Thorough() {
+		solox = "solo4x"
+	}
+	for _, turn := range turns {
+		scen = append(scen, netsim.Scenario{Cfg: netsim.Config{Name: fmt.Sprintf("solo-turn%d-%s-round-shapes", turn, solox), Powers: []int64{1, 1, 1, 1}, SoloTurn: turn, Driver: solox, TargetHeight: 1, MaxRound: 8, MaxSteps: 1500}, Bound: 0})
+	}
 	dl := 10 * time.Minute
 	if r.Thorough() {
 		dl = 30 * time.Minute
